@@ -77,6 +77,16 @@ def KT.interp : Sexp → Option (Val → GoM (Try Val))
   | .list [.atom "kpanic", id, p] => do
     let id ← id.asInt?; let p ← p.asInt?
     pure fun x => do emit s!"k{id}:{x}"; goPanic s!"{p}"
+  -- a user function that fails with the LIBRARY'S OWN sentinel error `fp.ErrOptionEmpty` (seed C01-13: a rewrite of
+  -- `try.TraverseOption` through `FromOption` + `RecoverCase(errors.Is(·, ErrOptionEmpty))` turns that failure into `Success(None)`)
+  | .list [.atom "kfailsent", id] => do
+    let id ← id.asInt?
+    pure fun x => do emit s!"k{id}:{x}"; pure (.failure .optionEmpty)
+  | .list [.atom "kfailifsent", id, m] => do
+    let id ← id.asInt?; let m ← m.asInt?
+    pure fun x => do
+      emit s!"k{id}:{x}"
+      if emod x.asInt m == 0 then pure (.failure .optionEmpty) else pure (.success (.int (x.asInt + 1)))
   | .list [.atom "ksuccnil", id] => do
     let id ← id.asInt?
     pure fun x => do emit s!"k{id}:{x}"; pure (.success .nil)
